@@ -80,7 +80,11 @@ Definition sig_in (l : list (name * Z)) (s : name * Z) : bool := existsb (nz_eqb
 (* model module pm against implementation module pi; flat = the flattened internal signals of the model *)
 Definition names_agree (flat : list (name * Z)) (pm pi : pmodule) : bool :=
   list_eqb nz_eqb (pm_ports pm) (pm_ports pi) &&
-  names_eqb (map pi_name (pm_insts pm)) (map pi_name (pm_insts pi)) &&
+  (* the instance NAMES agree as a set (names are unique in a module): the order in which a Module's instance arrays are
+     flattened - hence the order of the instances in the package - is no part of the property *)
+  (let a := map pi_name (pm_insts pm) in let b := map pi_name (pm_insts pi) in
+   Nat.eqb (Datatypes.length a) (Datatypes.length b) &&
+   forallb (fun x => existsb (String.eqb x) b) a && forallb (fun x => existsb (String.eqb x) a) b) &&
   forallb (sig_in (pm_sigs pi)) flat.
 
 Definition module_flat_sigs (d1 : bdesign) (n : name) : list (name * Z) :=
